@@ -4,6 +4,7 @@
 package main
 
 import (
+	"bytes"
 	"context"
 	"crypto/sha256"
 	"encoding/binary"
@@ -327,6 +328,28 @@ func main() {
 			tail = tail[:700] + "\n...\n" + tail[len(tail)-700:]
 		}
 		confirmed = append(confirmed, violation{Msg: "the worker process died or hung while building this case, and again when the case was run alone:\n" + tail, Sig: "worker-death", Replay: data})
+	}
+
+	// 1c. -race builds: a data race report in a worker's log is a violation (replay = the case the
+	// worker was on, if it recorded one)
+	for k, res := range results {
+		if !strings.HasSuffix(plan[k].bin, ".race.test") {
+			continue
+		}
+		logb, err := os.ReadFile(res.log)
+		if err != nil || !bytes.Contains(logb, []byte("WARNING: DATA RACE")) {
+			continue
+		}
+		i := bytes.Index(logb, []byte("WARNING: DATA RACE"))
+		excerpt := string(logb[i:])
+		if len(excerpt) > 3000 {
+			excerpt = excerpt[:3000] + "\n..."
+		}
+		data, _ := os.ReadFile(filepath.Join(work, fmt.Sprintf("current-%d.json", plan[k].idx)))
+		if data == nil {
+			data = []byte("null")
+		}
+		confirmed = append(confirmed, violation{Msg: "the race detector reported a data race:\n" + excerpt, Sig: "race", Replay: data})
 	}
 
 	// 2. merge
